@@ -152,6 +152,13 @@ func (d *dataProc) ReadAt(buf []byte, off int64) (int, error)  { return d.conn()
 func (d *dataProc) Sync() (int, error)                         { return d.conn().Sync() }
 func (d *dataProc) Unmap(off, l int64) (int, error)            { return d.conn().Unmap(off, l) }
 func (d *dataProc) PingResponse() error {
+	// a replica that hangs: the ping stays unanswered until the connection is gone
+	for i := 0; i < 3000 && atomic.LoadInt32(&d.f.PingHang) != 0; i++ {
+		if c := d.f.connOf(d.tcp); c == nil || atomic.LoadInt32(&c.dropped) != 0 {
+			break
+		}
+		time.Sleep(10 * time.Millisecond)
+	}
 	d.f.mu.Lock()
 	alive := d.f.Alive
 	d.f.mu.Unlock()
